@@ -237,7 +237,7 @@ let op_ps_shutdown a =
   let (mok, o) = ps_modify_attribute ps_fenv (ps_k "notes") (ps_parse (str a "val" "S78")) true (z_of_int !now) (ps_get 0) in
   ps_pop := ps_pop_set (ps_oname 0) o !ps_pop;
   emit (ps_state_line "mod" mok 0 o);
-  let (threw, stale) = psd_observe psd_src_skip (match sched with "late" -> psd_sched_late | "parked" -> psd_sched_parked | _ -> psd_sched_free) in
+  let (threw, stale) = psd_observe psd_src_skip (match sched with "late" -> if psd_src_serial then psd_sched_late_serial else psd_sched_late | "parked" -> psd_sched_parked | _ -> psd_sched_free) in
   emit (Printf.sprintf "shut threw=%d stale=%d" (if threw then 1 else 0) (if stale then 1 else 0));
   if sched <> "late" then begin
     (match ps_pop_dump !ps_pop, ps_pop_restart_text ps_fenv (z_of_int !now) !ps_pop !ps_pop0 with
